@@ -26,6 +26,7 @@ import (
 	"harness/sim"
 
 	"github.com/welllog/golib/goz"
+	"github.com/welllog/golib/zzsim/core"
 	"github.com/welllog/golib/zzsim/syield"
 )
 
@@ -408,6 +409,7 @@ func runCase(t *testing.T, c *sim.Case, script []int16, strict bool) (*sim.Viola
 			for i := range w.gates {
 				w.gates[i] = make(chan struct{})
 			}
+			core.PoolReset(c.EnvSeed)
 			l := goz.NewLimiter(limit)
 			if c.P("handler") == 1 {
 				w.handlerOn = true
